@@ -219,7 +219,8 @@ def history_cases(ctx, sc, dist, steps=None):
     flag (bit-exact: p, or p / (1 - P(M)) without the Markov line), every table is the file's groups (under all_lower: C<n> the one
     all-lower mask with probability 1.0, everything else unchanged), and the pairwise restriction oracles on the loads of the
     same file version.  steps: the recorded steps of a replay (one history)."""
-    vio = []
+    import time
+    vio, t0 = [], time.time()
     flagsets = [(sb, scs, "Grammar") for sb in (False, True) for scs in (False, True)]
     kinds = ["flags"] * 6 + ["move-markov"] * 2 + ["drop-base", "reweight-base", "reweight-terminal", "add-value", "remove-value",
                                                     "edit_rules", "retrain", "same"]
@@ -288,6 +289,7 @@ def history_cases(ctx, sc, dist, steps=None):
                 bad = bad or bool(v)
             if bad:
                 break
+    dist["history_seconds"] = round(time.time() - t0, 1)
     return vio
 
 
